@@ -169,6 +169,13 @@ func (r *c01Runner) entriesOf(in c01Input) []entry {
 		es = append(es, entry{"cryptobyte.program", func(b []byte) bool { return runCryptobyteProgram(b, prog) }})
 		return es
 	}
+	if keyFamilies[in.Fam] { // a key of one format goes through every key parser of both packages
+		var es []entry
+		for _, f := range []string{"spki", "pkcs1priv", "pkcs1pub", "pkcs8", "ecpriv"} {
+			es = append(es, r.ents[f]...)
+		}
+		return es
+	}
 	return r.ents[in.Fam]
 }
 
